@@ -130,6 +130,9 @@ type svEntry struct {
 	tag, ver bool   // accepts the v form / the plain form
 }
 
+// svRuleValues: rule values for sem.DefaultParser beyond 0 and RuleDisableTag (unknown extra bits, all ones, negative)
+var svRuleValues = extValues(2)
+
 var svEntries = []svEntry{{"Parse", true, true}, {"ParseVersion", false, true}, {"ParseTag", true, false}, {"Default", true, true}, {"DefaultNoTag", false, true}}
 
 func svCall[T ~string | ~[]byte](ei int, in T) (sem.Ver, error) {
@@ -281,6 +284,36 @@ func svCheckParse(a *svAcc, s string, full bool) bool {
 				}
 				if u != (sem.Ver{}) {
 					a.fail("C03.zero", svParseLine(e.name, ml, s), "%q: UnmarshalText left %+v next to its error", s, u)
+				}
+			}
+		}
+		if full && ei == 3 {
+			// onto variables that already hold a version: a successful call yields exactly the decoded value
+			if want == "ok" {
+				exp := svPartsVer(parts)
+				for _, w0 := range semLoadedReceivers {
+					w := w0
+					if werr := w.UnmarshalText([]byte(s)); werr != nil || w != exp {
+						a.fail("C03.overwrite", svParseLine(e.name, ml, s), "%q: UnmarshalText onto %+v gives %+v %v, expected %+v", s, w0, w, werr, exp)
+					}
+				}
+			}
+			// the rule is a flag set: DefaultParser under rule values with unknown extra bits (bit test on RuleDisableTag)
+			for _, n := range svRuleValues {
+				re := svEntry{"Default:" + strconv.Itoa(n), n&1 == 0, true}
+				rwant, rparts := svExpect(&re, ml, s)
+				rv, rerr := sem.DefaultParser(s, sem.Rule(n))
+				switch {
+				case rerr != nil && rwant == "ok":
+					a.fail("C03.rule", svParseLine(re.name, ml, s), "%q rejected under rule %d: %v", s, n, rerr)
+				case rerr == nil && rwant != "ok":
+					a.fail("C03.rule", svParseLine(re.name, ml, s), "%q accepted under rule %d as %+v, expected %s", s, n, rv, rwant)
+				case rerr == nil && rv != svPartsVer(rparts):
+					a.fail("C03.rule", svParseLine(re.name, ml, s), "%q under rule %d -> %+v, expected %+v", s, n, rv, rparts)
+				case rerr != nil:
+					if cls, typed := svErrClass(rerr); !typed || cls != rwant || rv != (sem.Ver{}) {
+						a.fail("C03.rule", svParseLine(re.name, ml, s), "%q under rule %d: error class %s (typed %v), value %+v, expected %s", s, n, cls, typed, rv, rwant)
+					}
 				}
 			}
 		}
@@ -494,6 +527,9 @@ func svGenAlnum(r *Rng) string {
 	}
 	if svAllDigits(string(b)) {
 		b[r.Intn(n)] = "a-Zrcx"[r.Intn(6)]
+	}
+	if r.Intn(12) == 0 { // a word with a digit tail of 1..25 digits (boundary numbers included)
+		return string(b) + svGenNum(r)
 	}
 	return string(b)
 }
@@ -1044,7 +1080,34 @@ const svM = ^uint64(0)
 var svCores = [][3]uint64{{0, 0, 0}, {0, 0, 1}, {0, 1, 0}, {1, 0, 0}, {1, 2, 3}, {svM, 0, 0}, {svM, svM, svM}, {svM - 1, svM, 0}, {1, 0, svM},
 	{0, svM, svM - 1}, {svM, svM, svM - 1}, {1 << 63, 1<<63 - 1, 1 << 32}}
 
-var svBuilds = []string{"", "b1", "zz.9", "001", "a-b.0", "exp.sha.5114f85", "-"}
+var svBuilds = []string{"", "b1", "zz.9", "001", "a-b.0", "exp.sha.5114f85", "-", "7", "12", "20240101120000", "18446744073709551616"}
+
+// svBuildPairs: pairs of build texts every comparison is repeated with ("ignores build metadata" is a statement about all
+// build texts): two different numbers of every size, number against word, a text against its prefix, late differences.
+var svBuildPairs = [][2]string{{"1", "2"}, {"2", "1"}, {"7", "12"}, {"001", "1"}, {"0", "00"}, {"20240101120000", "20240202120000"}, {"20240202120000", "20231231235959"},
+	{"18446744073709551615", "18446744073709551616"}, {"18446744073709551617", "18446744073709551616"}, {"99999999999999999999999999", "99999999999999999999999998"}, {"1", "a"}, {"a", "1"},
+	{"a", "b"}, {"b", "a"}, {"a.1", "a.2"}, {"a.2", "a.10"}, {"a", "a.1"}, {"a.b", "a"}, {"", "1"}, {"2", ""}, {"", "a"}, {"rc1", "rc2"}, {"A", "a"},
+	{"exp.sha.5114f85", "exp.sha.5114f86"}, {"build.1.2.3.4.5.6.7.8.9.10.11.12", "build.1.2.3.4.5.6.7.8.9.10.11.13"}, {"x20240101120000", "x20240202120000"}, {"-", "--"}, {"5", "5"}}
+
+// svCheckBuildPairs: the comparison of va and vb (r) must not move when the two build texts are replaced. all = every pair of the
+// pool (used where core and pre-release are equal: the place a tie-break would bite), otherwise the k-th pair.
+func svCheckBuildPairs(a *svAcc, key string, va, vb sem.Ver, r int, k int, all bool) {
+	lo, hi := k%len(svBuildPairs), k%len(svBuildPairs)+1
+	if all {
+		lo, hi = 0, len(svBuildPairs)
+	}
+	for _, p := range svBuildPairs[lo:hi] {
+		xa, xb := va, vb
+		xa.Build, xb.Build = p[0], p[1]
+		if x := xa.Compare(xb); x != r {
+			a.fail(key, svCmpLine(xa, xb), "%v vs %v: %d, with build metadata %q / %q: %d", va, vb, r, p[0], p[1], x)
+		}
+	}
+}
+
+func svSameCorePre(va, vb sem.Ver) bool {
+	return va.Major == vb.Major && va.Minor == vb.Minor && va.Patch == vb.Patch && va.PreRelease == vb.PreRelease
+}
 
 // svUniverse: "" followed by every valid pre-release text over {0,1,2,9,a,B,-,.} up to maxLen, then extras.
 func svUniverse(maxLen int, extras []string) []svPre {
@@ -1084,7 +1147,11 @@ var svExtras = []string{"alpha", "alpha.1", "alpha.beta", "beta", "beta.2", "bet
 	"a.99999999999999999999999.b", "a.100000000000000000000000", "a.18446744073709551616.b", "x.7.z.92", "x.7.z.100", "x.7.z", "x.7.z.-"}
 
 var svMixed = []string{"a01", "a1", "a0x", "rc10", "rc9", "rc09", "a001", "a10", "a9", "a09", "a1x", "a00", "rc1", "rc01", "rc.a01", "rc.a1", "rc.a1.0", "rc.a01.1",
-	"x-1", "x-01", "x-10", "x-9"}
+	"x-1", "x-01", "x-10", "x-9",
+	// a word with a long digit tail (build numbers, timestamps): 19..30 digits, around 2^64, equal and different lengths, leading zeros
+	"rc18446744073709551615", "rc18446744073709551616", "rc18446744073709551617", "rc28446744073709551616", "rc018446744073709551616", "rc1844674407370955161", "rc184467440737095516160",
+	"rc9999999999999999999", "rc10000000000000000000", "rc99999999999999999999", "rc100000000000000000000", "b20240101120000", "b20240202120000", "b020240101120000",
+	"x-999999999999999999999999999999", "x-999999999999999999999999999998", "x-1000000000000000000000000000000", "rc.a18446744073709551616", "rc.a28446744073709551616", "rc.a18446744073709551616.1"}
 
 func svVer(core [3]uint64, pre, build string) sem.Ver {
 	return sem.Ver{Major: core[0], Minor: core[1], Patch: core[2], PreRelease: pre, Build: build}
@@ -1101,6 +1168,7 @@ func svCheckAllCmp(a *svAcc, key string, va, vb sem.Ver, want int) {
 	if r := va.Compare(vb); r != want {
 		a.fail(key+".Ver.Compare", svCmpLine(va, vb), "%v vs %v: %d, expected %d", va, vb, r, want)
 	}
+	svCheckBuildPairs(a, key+".build", va, vb, want, len(va.PreRelease)*7+len(vb.PreRelease)*3+int(va.Patch%5), svSameCorePre(va, vb))
 	// latest-of-two: the higher one; on equal precedence either argument (the property says "one of its two
 	// arguments and never the lower one")
 	wantL := va
@@ -1300,6 +1368,9 @@ func propC06(c *Ctx) {
 			}
 			if r := va.Compare(vb); r != want {
 				acc.fail("C06.Ver.Compare", svCmpLine(va, vb), "%v vs %v: %d, expected %d", va, vb, r, want)
+			}
+			if i == j || h%3 == 0 {
+				svCheckBuildPairs(acc, "C06.build", va, vb, want, h/3, i == j)
 			}
 			wantL := va
 			if want == -1 {
@@ -1530,6 +1601,7 @@ func svCheckOrder(a *svAcc, va, vb sem.Ver, alt string, sel int, spec int, known
 	if x != r {
 		a.fail("C14.build", svCmpLine(va2, vb2), "%v vs %v: %d, with other build metadata (variant %d of %v / %v) %d", va, vb, r, sel%3, va2, vb2, x)
 	}
+	svCheckBuildPairs(a, "C14.build", va, vb, r, sel, svSameCorePre(va, vb))
 	if va.Major == vb.Major && va.Minor == vb.Minor && va.Patch == vb.Patch && va.PreRelease == vb.PreRelease && r != 0 {
 		a.fail("C14.equal", svCmpLine(va, vb), "%v vs %v: %d", va, vb, r)
 	}
@@ -2020,11 +2092,16 @@ func svLongTexts() []string {
 
 // svNearAndLongC03 runs the tables through the five parser entry points (and UnmarshalText, inside svCheckParse).
 func svNearAndLongC03(c *Ctx, acc *svAcc) {
+	nrule := 0
 	all := func(s string, ml int) {
 		c.Check("table " + strconv.Itoa(ml) + " " + s)
 		svCheckParseML(acc, s, ml)
 		for ei := range svEntries {
 			c.Op(svParseLine(svEntries[ei].name, ml, s))
+		}
+		nrule++
+		for k := 0; k < 2; k++ {
+			c.Op(svParseLine("Default:"+strconv.Itoa(svRuleValues[(2*nrule+k)%len(svRuleValues)]), ml, s))
 		}
 	}
 	for _, b := range svNearBases {
